@@ -176,6 +176,48 @@ func collectAssigns(w *World, pr *prover, fns []*ssa.Function) []fieldAssign {
 				}
 			}
 		}
+		// h(&x.A) where h does *p = G(*p) on every path (flattenInPlace(p *Item)): the field is assigned G of itself
+		for _, call := range callsIn(f) {
+			h := call.Common().StaticCallee()
+			if h == nil || !w.InPkg(h) || h.Blocks == nil || len(h.Params) != 1 || len(call.Common().Args) != 1 {
+				continue
+			}
+			efa, isFA := call.Common().Args[0].(*ssa.FieldAddr)
+			if !isFA {
+				continue
+			}
+			efp, okp := pr.structPath(efa, 0)
+			if !okp || len(efp.Idx) == 0 || efp.RootType.Obj().Pkg() != w.Types {
+				continue
+			}
+			for _, hb := range h.Blocks {
+				for _, hin := range hb.Instrs {
+					hst, isSt := hin.(*ssa.Store)
+					if !isSt || hst.Addr != ssa.Value(h.Params[0]) {
+						continue
+					}
+					gcall, isCall := unwrap(hst.Val).(*ssa.Call)
+					if !isCall || gcall.Common().StaticCallee() == nil || len(gcall.Common().Args) < 1 {
+						continue
+					}
+					ld, isLd := unwrap(gcall.Common().Args[0]).(*ssa.UnOp)
+					if !isLd || ld.Op != token.MUL || ld.X != ssa.Value(h.Params[0]) {
+						continue
+					}
+					// on every path of the helper
+					every := true
+					for _, rb := range returnBlocks(h) {
+						if !hb.Dominates(rb) {
+							every = false
+						}
+					}
+					if !every {
+						continue
+					}
+					out = append(out, fieldAssign{fn: f, instr: call, target: efp, helper: gcall.Common().StaticCallee(), sources: []FieldPath{efp}, guards: pr.dominatingGuards(call.Block())})
+				}
+			}
+		}
 		// h(&x.A, &x.B, …) where h maps every pointed-to value through one function (for _, p := range ps { *p = G(*p) })
 		// assigns each of those fields from G applied to itself
 		for _, call := range callsIn(f) {
@@ -587,6 +629,31 @@ func checkC16(w *World, c *Check, tier string) {
 		}
 	} else {
 		c.bad("C16.noinvent", "anchor:Normalize", "-", "ItemCollection.Normalize not found")
+	}
+
+	// ---- lists: Flatten handed a plain item list flattens its members — on the abstract run with a non-nil ItemCollection
+	// as the operand the list flattener is reached ("references need no flattening: return anything that is not an
+	// object" also returns lists, which are neither objects nor links by their own accessors) ----
+	if fl, ic := w.Func("Flatten"), w.Named("ItemCollection"); fl != nil && ic != nil && w.Func("FlattenItemCollection") != nil {
+		d := topOfType(ic)
+		d.T = ic
+		d.Nil = nilNo
+		ip := newInterp(w)
+		reached := false
+		ip.onCall = func(ev callEvent) {
+			if ev.Callee.Name() == "FlattenItemCollection" {
+				reached = true
+			}
+		}
+		ip.Call(fl, []AV{{K: kIface, Nil: nilNo, Dyn: &d}}, nil, Store{}, nil)
+		switch {
+		case ip.aborted != "":
+			c.bad("C16.dispatch", "Flatten:ItemCollection", w.FuncPos(fl), "undecided: "+ip.aborted)
+		case !reached:
+			c.bad("C16.dispatch", "Flatten:ItemCollection", w.FuncPos(fl), "Flatten handed a non-nil ItemCollection never reaches FlattenItemCollection: a list-valued attributedTo/replies/likes/shares keeps its embedded members")
+		default:
+			c.ok("C16.dispatch", "Flatten:ItemCollection", w.FuncPos(fl), "reaches FlattenItemCollection")
+		}
 	}
 
 	// ---- noinvent: the identifiers that flattening (and de-duplication, on which the list variant is built) put into
